@@ -30,6 +30,7 @@ impl Reg {
     }
     pub fn run(&mut self, ix: &Ix) -> Result<Option<Vec<u8>>, ProgramError> {
         *RET.lock().unwrap() = None;
+        let snapshot = self.data.clone();
         let cfg = Pubkey::find_program_address(&[b"system_config"], &ID).0;
         let st = Pubkey::find_program_address(&[b"state"], &ID).0;
         let reg_key = Pubkey::new_from_array([7; 32]);
@@ -55,8 +56,11 @@ impl Reg {
                 }
             }
         }
-        let r = mock_swap_sol_2z::verif_process_instruction(&ID, &infos, &ix_bytes);
+        // a panic aborts the instruction like an error does; the runtime discards the account changes of a failed instruction
+        let r = std::panic::catch_unwind(std::panic::AssertUnwindSafe(|| mock_swap_sol_2z::verif_process_instruction(&ID, &infos, &ix_bytes)))
+            .unwrap_or(Err(ProgramError::Custom(0xDEAD)));
         drop(infos);
+        if r.is_err() { self.data = snapshot; }
         r.map(|_| RET.lock().unwrap().take())
     }
 }
